@@ -18,6 +18,7 @@ import (
 	"time"
 
 	"github.com/attestantio/go-block-relay/services/blockauctioneer"
+	builderclient "github.com/attestantio/go-builder-client"
 	builderapi "github.com/attestantio/go-builder-client/api"
 	builderbellatrix "github.com/attestantio/go-builder-client/api/bellatrix"
 	buildercapella "github.com/attestantio/go-builder-client/api/capella"
@@ -287,7 +288,12 @@ func c09SigningRoot(obj [32]byte, domain phase0.Domain) [32]byte {
 // relayIdx serves.  It returns the bid, the hash tree root of its message and
 // of its header (computed with the builder-spec types' own HashTreeRoot).
 func c09BuildBid(ch *Chain, parent phase0.Hash32, relayIdx int, b *c09Bid) (*builderspec.VersionedSignedBuilderBid, [32]byte, [32]byte) {
-	ts := uint64(ch.SlotStart(c09Slot).Unix() + b.TsOff)
+	return c09BuildBidAt(ch, c09Slot, parent, relayIdx, b)
+}
+
+// c09BuildBidAt: the same for an auction of the given slot.
+func c09BuildBidAt(ch *Chain, slot phase0.Slot, parent phase0.Hash32, relayIdx int, b *c09Bid) (*builderspec.VersionedSignedBuilderBid, [32]byte, [32]byte) {
+	ts := uint64(ch.SlotStart(uint64(slot)).Unix() + b.TsOff)
 	var fee bellatrix.ExecutionAddress
 	if !b.FeeZero {
 		for i := range fee {
@@ -375,7 +381,15 @@ type c09Rec struct {
 	hdrRoot      [32]byte
 	sig          phase0.BLSSignature
 	startT, endT time.Duration
-	returned     bool // the stub handed a bid to vouch
+	returned     bool        // the stub handed a bid to vouch
+	slot         phase0.Slot // slot of the auction the bid was served for (0: c09Slot)
+}
+
+func (r *c09Rec) slotOf() phase0.Slot {
+	if r.slot == 0 {
+		return c09Slot
+	}
+	return r.slot
 }
 
 type c09Hist struct{ recs []*c09Rec }
@@ -523,6 +537,19 @@ type c09Run struct {
 	hist        *c09Hist
 	stubs       []*c09RelayStub
 	ch          *Chain
+	// Set by scenarios whose relays are not the stubs of this file (history.go: real builder clients that talk
+	// to simulated relays over HTTP); the zero values mean: slot c09Slot, bids and providers are identified by
+	// object identity.
+	slot    phase0.Slot
+	sameBid func(r *c09Rec, bid *builderspec.VersionedSignedBuilderBid) bool
+	relayOf func(p builderclient.BuilderBidProvider) int
+}
+
+func (run *c09Run) slotOf() phase0.Slot {
+	if run.slot == 0 {
+		return c09Slot
+	}
+	return run.slot
 }
 
 func c09Exec(plan any, sched *simrt.Tape) *sim.Outcome {
@@ -677,7 +704,7 @@ func c09Ineligible(pl *c09Plan, ch *Chain, r *c09Rec) (string, *big.Int, bool) {
 	if fee == (bellatrix.ExecutionAddress{}) {
 		return "zero-fee-recipient", score, amb
 	}
-	if int64(ts) != ch.SlotStart(c09Slot).Unix() {
+	if int64(ts) != ch.SlotStart(uint64(r.slotOf())).Unix() {
 		return "timestamp", score, amb
 	}
 	if k := c09KnownKey(rel, r.relay); k >= 0 {
@@ -737,7 +764,7 @@ func c09OracleMain(pl *c09Plan, run *c09Run, out *sim.Outcome, setMasked func(*b
 		return Viol("C09/returned-error", "BuilderBid returned res=%v err=%v", run.res != nil, run.err)
 	}
 	// returns by the strategy's deadline
-	slotStart := ch.SlotStart(c09Slot).Sub(SimEpoch)
+	slotStart := ch.SlotStart(uint64(run.slotOf())).Sub(SimEpoch)
 	limit := run.callT + pl.Timeout
 	if pl.Strategy == "deadline" {
 		limit = max(run.callT, slotStart+pl.Timeout)
@@ -833,7 +860,7 @@ func c09OracleMain(pl *c09Plan, run *c09Run, out *sim.Outcome, setMasked func(*b
 	// which bid is it?
 	var wrec *c09Rec
 	for _, r := range run.hist.recs {
-		if r.bid == win.Bid {
+		if r.bid == win.Bid || (run.sameBid != nil && run.sameBid(r, win.Bid)) {
 			wrec = r
 		}
 	}
@@ -881,6 +908,9 @@ func c09OracleMain(pl *c09Plan, run *c09Run, out *sim.Outcome, setMasked func(*b
 			if p == st {
 				idx = i
 			}
+		}
+		if run.relayOf != nil {
+			idx = run.relayOf(p)
 		}
 		if idx < 0 {
 			return Viol("C09/unknown-provider", "provider %s is not a configured relay", p.Address())
